@@ -204,8 +204,7 @@ def run(chk):
             tok = core.dec_str(g.split()[1])
             try:
                 fv = float(tok)
-                ok = (v[0] == 'ok' and (v[2] == fv or (math.isnan(fv) and math.isnan(v[2])))) or \
-                     (v[0] == 'raises')  # SINGLE overflow raised by NumericLiteral.parse: gray (C07 finding)
+                ok = v[0] == 'ok' and (v[2] == fv or (math.isnan(fv) and math.isnan(v[2])))
             except ValueError:
                 ok = False
         elif kind == 'raises':
